@@ -134,7 +134,7 @@ def main():
         }],
         "checks": checks,
         "not_applicable": na,
-        "notes": "All checks: ./check <ID> --tier quick|thorough; VERIF_SEED selects the Hypothesis seeds; exit 2 = harness error. 51 genuine defects found were repaired in /repo by 'fix:' commits and are listed as 'fixed' in known_findings.json (no unrepaired known findings). Sensitivity: tools/selftest.py (reverse of every fix + hand-written mutants + 204 independently written regressions under seeded/), tools/mutate.py (systematic first-order mutation).",
+        "notes": "All checks: ./check <ID> --tier quick|thorough; VERIF_SEED selects the Hypothesis seeds; exit 2 = harness error. 51 genuine defects found were repaired in /repo by 'fix:' commits and are listed as 'fixed' in known_findings.json (no unrepaired known findings). Sensitivity: tools/selftest.py (reverse of every fix + hand-written mutants + 238 independently written regressions under seeded/), tools/mutate.py (systematic first-order mutation).",
     }
     (HERE / "MANIFEST.json").write_text(json.dumps(man, indent=1) + "\n")
 
